@@ -92,6 +92,29 @@ class C15Top(Serializable):
     names: Set[str] = None
 
 
+class C15Lobby(Serializable):
+    """container fields whose default in the class definition is a MUTABLE object, not None (as in the library's own demo:
+    ``rooms: Dict[int, str] = {}``); decoded many times in one process"""
+    rooms: Dict[int, str] = {}
+    names: List[str] = []
+    scores: Dict[C15Mode, int] = {}
+    members: Set[str] = set()
+    inners: List[C15Inner] = []
+    pair: Tuple[int, str] = (0, "")
+    extra: List[int] = None
+    title: str = "lobby"
+
+
+class C15Board(Serializable):
+    """same, with non-empty class-level defaults and other element types"""
+    grid: Dict[str, C15Inner] = {}
+    order: List[C15Mode] = [C15Mode.ON]
+    seen: Set[int] = {0}
+    cells: Dict[C15Name, bool] = {C15Name.A: True}
+    size: Tuple[int, int] = None
+    n: int = 3
+
+
 VALUES = {
     int: [0, -1, 2 ** 53 + 1, 7, -(2 ** 63) + 1],      # beyond 2**53: no exact double, must not pass through a float
     float: [0.5, -2.0, 1e-3],
@@ -273,6 +296,165 @@ def hierarchy_cases():
     yield [C15DerivedB(score=5, items=[3]), C15BaseB(uid=9), C15DerivedB(score=0, items=None)], "class hierarchy, child used first", ("hierarchy", "child-first")
 
 
+# ---- sequences of decodes of ONE class in one process ---------------------------------------------------------------------
+# fromJson(toJson(x)) reproduces x for every x, so also for the second and third object of a class that a process decodes,
+# whatever it constructed or decoded before, and an object that was returned as the reproduction of x stays that (it does not
+# change when ANOTHER object is decoded or constructed).  Classes with mutable class-level container defaults; every sequence
+# of SEQ_DEPTH operations from {decode object i (4 objects incl. all-empty and all-None containers) built by keyword arguments
+# through fromJson / through loads, decode object i built by filling a default-constructed instance in place, construct a
+# bare Cls()}.  All decoded objects are compared again at the end of the sequence.
+
+def seq_specs(cls):
+    """fresh, harness-owned field values (never handed out twice)"""
+    i0, i1 = C15Inner(n=-5, s="日本"), C15Inner(n=2 ** 63 - 1, s="x")
+    if cls is C15Lobby:
+        return [
+            dict(rooms={1: "lobby", -7: "café"}, names=["ann", "bob"], scores={C15Mode.ON: 3}, members={"a", "é"}, inners=[i0, i1],
+                 pair=(7, "x"), extra=[1, 2], title="first"),
+            dict(rooms={2: "arena"}, names=["中文"], scores={C15Mode.AUTO: -(2 ** 63) + 1, C15Mode.OFF: 0}, members={"zed"}, inners=[i1],
+                 pair=(-1, ""), extra=[], title=""),
+            dict(rooms={}, names=[], scores={}, members=set(), inners=[], pair=(0, "é"), extra=[], title="empty"),
+            dict(rooms=None, names=None, scores=None, members=None, inners=None, pair=None, extra=None, title="none"),
+        ]
+    return [
+        dict(grid={"a": i0, "": i1}, order=[C15Mode.AUTO, C15Mode.OFF], seen={5, -(2 ** 53) - 1}, cells={C15Name.B: False}, size=(3, -4), n=1),
+        dict(grid={"é": i1}, order=[C15Mode.ON], seen={7}, cells={C15Name.EMPTY: True, C15Name.A: False}, size=(0, 0), n=-1),
+        dict(grid={}, order=[], seen=set(), cells={}, size=(1, 2), n=0),
+        dict(grid=None, order=None, seen=None, cells=None, size=None, n=2 ** 53 + 1),
+    ]
+
+
+SEQ_CLASSES = [C15Lobby, C15Board]
+SEQ_DEPTH = {"quick": 3, "thorough": 4}
+SEQ_BACK = 4
+
+
+def frozen(v):
+    """immutable, type-strict picture of a field value (so that a later comparison does not depend on objects the code under
+    test may still hold)"""
+    if isinstance(v, Serializable):
+        return ("obj", type(v).__name__, tuple((f, frozen(getattr(v, f))) for f in v._fields))
+    if isinstance(v, SerializableEnum):
+        return ("enum", type(v).__name__, frozen(v.value))
+    if isinstance(v, (list, tuple)):
+        return (type(v).__name__, tuple(frozen(x) for x in v))
+    if isinstance(v, (set, frozenset)):
+        return (type(v).__name__, frozenset(frozen(x) for x in v))
+    if isinstance(v, dict):
+        return ("dict", frozenset((frozen(k), frozen(x)) for k, x in v.items()))
+    return (type(v).__name__, v)
+
+
+def seq_ops(cls):
+    """[(name, how, spec index or None)]"""
+    ops = []
+    for i in range(len(seq_specs(cls))):
+        ops.append(("fromJson(toJson(x%d))" % i, "fromJson", i))
+        ops.append(("loads(dumps(x%d))" % i, "loads", i))
+        ops.append(("fromJson(toJson(x%d)), x%d = %s() filled in place" % (i, i, cls.__name__), "inplace", i))
+    ops.append(("%s()" % cls.__name__, "construct", None))
+    return ops
+
+
+def seq_build(cls, how, i):
+    spec = seq_specs(cls)[i]
+    if how != "inplace":
+        return cls(**spec)
+    x = cls()
+    for f, v in spec.items():
+        cur = getattr(x, f)
+        if isinstance(v, list) and isinstance(cur, list):
+            cur.extend(v)
+        elif isinstance(v, dict) and isinstance(cur, dict):
+            cur.update(v)
+        elif isinstance(v, set) and isinstance(cur, set):
+            cur.update(v)
+        else:
+            setattr(x, f, v)
+    return x
+
+
+# the defaults as written in the class definitions, pictured at import time (before anything could have changed them)
+SEQ_DEFAULTS = {c.__name__: {f: repr(c.__dict__.get(f)) for f in c._fields} for c in SEQ_CLASSES}
+
+
+def field_kind(cls, f):
+    return "%s.%s: %s = %s" % (cls.__name__, f, str(cls.__annotations__[f]).replace("typing.", "").replace("checks.c15.", ""), SEQ_DEFAULTS[cls.__name__][f])
+
+
+_SEQ_LOG = {}
+_SEQ_BROKEN = set()   # classes for which this process has already reported a violation
+
+
+def seq_run(cls, indices, log):
+    """run the operations; log = operations on this class this process ran before (extended in place).
+    returns [(oracle, sig, witness, message)]"""
+    ops = seq_ops(cls)
+    out = []
+    held = []     # (op position, name, decoded object, picture of x when it was encoded)
+    for pos, k in enumerate(indices):
+        name, how, i = ops[k]
+        before = list(log[-SEQ_BACK:])
+        log.append(k)
+        wit = {"family": "sequence", "class": cls.__name__, "ops": before + [k], "names": [ops[j][0] for j in before] + [name]}
+        if how == "construct":
+            cls()
+            continue
+        oracle = "loads(dumps)" if how == "loads" else "fromJson(toJson)"
+        try:
+            x = seq_build(cls, how, i)
+            want = {f: frozen(getattr(x, f)) for f in cls._fields}
+            shown = {f: repr(getattr(x, f))[:120] for f in cls._fields}
+            y = cls.loads(x.dumps()) if how == "loads" else cls.fromJson(x.toJson())
+        except Exception as e:
+            out.append((oracle, "%s raises %s in a sequence of decodes of one class" % (oracle, type(e).__name__), wit,
+                        "%s: %r; operations on %s just before (latest last): %s" % (name, e, cls.__name__, " ; ".join(ops[j][0] for j in before) or "none")))
+            break
+        wrong = [f for f in cls._fields if frozen(getattr(y, f)) != want[f]]
+        if wrong:
+            f = wrong[0]
+            out.append((oracle, "%s != x in a sequence of decodes of one class: field %s" % (oracle, field_kind(cls, f)), wit,
+                        "%s: field %s is %.120r, x had %s; operations on %s just before (latest last): %s" % (
+                            name, f, getattr(y, f), shown[f], cls.__name__, " ; ".join(ops[j][0] for j in before) or "none")))
+            break
+        held.append((pos, name, y, want))
+    if not out:
+        # every object decoded in this sequence, looked at again
+        for pos, name, y, want in held:
+            wrong = [f for f in cls._fields if frozen(getattr(y, f)) != want[f]]
+            if wrong:
+                f = wrong[0]
+                wit = {"family": "sequence", "class": cls.__name__, "ops": list(indices), "names": [ops[j][0] for j in indices]}
+                out.append(("result-changes-later", "object returned by fromJson/loads no longer equals x after later operations on the class: field %s" % field_kind(cls, f), wit,
+                            "sequence %s: the result of operation %d (%s) was equal to x, after the sequence its field %s is %.120r" % (
+                                " ; ".join(ops[j][0] for j in indices), pos + 1, name, f, getattr(y, f))))
+                break
+    return out
+
+
+def seq_work(arg):
+    ci, first, depth = arg
+    cls = SEQ_CLASSES[ci]
+    n_ops = len(seq_ops(cls))
+    log = _SEQ_LOG.setdefault(cls.__name__, [])
+    viols = {}
+    n = decodes = 0
+    if cls.__name__ in _SEQ_BROKEN:
+        return n, decodes, viols
+    for rest in itertools.product(range(n_ops), repeat=depth - 1):
+        n += 1
+        seq = (first,) + rest
+        decodes += sum(1 for k in seq if k != n_ops - 1)
+        for oracle, sig, wit, msg in seq_run(cls, seq, log):
+            viols.setdefault((oracle, sig), [0, wit, msg])[0] += 1
+        if viols:
+            # one report per class and process: whatever made the decode wrong may live on in the class, later sequences in this
+            # process say nothing new (and state that leaks from decode to decode can grow without bound)
+            _SEQ_BROKEN.add(cls.__name__)
+            break
+    return n, decodes, viols
+
+
 def work_init(tier):
     global _TIER
     _TIER = tier
@@ -322,6 +504,18 @@ def run(tier, seed):
             if key not in acc:
                 acc[key] = [0, wit, msg]
             acc[key][0] += cnt
+    # sequences of decodes of one class (classes with mutable class-level defaults), first operation = work item
+    depth = SEQ_DEPTH[tier]
+    items = [(ci, (k + seed) % len(seq_ops(cls)), depth) for ci, cls in enumerate(SEQ_CLASSES) for k in range(len(seq_ops(cls)))]
+    n_seq = n_dec = 0
+    for t, d, viols in core.pmap("checks.c15", "seq_work", items, initargs=(tier,)):
+        n_seq += t
+        n_dec += d
+        for key, (cnt, wit, msg) in viols.items():
+            if key not in acc:
+                acc[key] = [0, wit, msg[:700]]
+            acc[key][0] += cnt
+    total += n_dec
     for (oracle, sig), (cnt, wit, msg) in sorted(acc.items()):
         rep.add_violation(core.Violation(oracle, sig, wit, "%s [%d cases]" % (msg, cnt)))
     rep.coverage = {
@@ -329,6 +523,11 @@ def run(tier, seed):
         "rule": "class shapes: %d single-field annotations (basic, nested, enum, List/Set/Tuple/Dict over them with int/str/enum keys), all ordered pairs of %s shapes in one class, a three-level nesting; "
                 "values: complete small alphabets per type incl. None/empty/1/2-element containers. non-trivial = distinct (shape, value) cases that passed every clause" % (
                     len(annotations()), "all (thorough: all value pairs; quick: 3x2 values per pair)"),
+        "sequences": {"classes": [c.__name__ for c in SEQ_CLASSES], "operations_per_class": len(seq_ops(SEQ_CLASSES[0])), "depth": depth,
+                      "sequences": n_seq, "decodes": n_dec,
+                      "rule": "classes whose List/Dict/Set/Tuple fields have mutable class-level defaults ({} [] set() and non-empty ones): every sequence of %d operations "
+                              "from {decode object i of 4 (full, other, all-empty, all-None) built by keywords via fromJson / via loads, built by filling Cls() in place via fromJson; "
+                              "bare Cls()}; each decode compared with x at once and all decoded objects again at the end of the sequence" % depth},
         "case_kinds": dict(labels), "classes_generated": len(_CLASSES), "exhaustive": True,
         "samples": core.safe_samples(lambda: [{"case": label, "object": repr(obj)[:160], "toJson": repr(obj.toJson())[:160]} for obj, label, ident in itertools.islice(cases(tier), 150, 20000, 6000)]),
     }
@@ -337,6 +536,9 @@ def run(tier, seed):
 
 
 def replay(witness):
+    if witness.get("family") == "sequence":
+        cls = [c for c in SEQ_CLASSES if c.__name__ == witness["class"]][0]
+        return [core.Violation(o, sg, witness, m[:700]) for o, sg, w, m in seq_run(cls, witness["ops"], [])]
     for obj, label, ident in itertools.chain(hierarchy_cases(), cases("thorough")):
         if list(ident) == list(witness.get("ident", [])) and label == witness.get("label"):
             objs = obj if isinstance(obj, list) else [obj]
